@@ -26,10 +26,12 @@ import (
 	"verifharness/c18"
 	"verifharness/c19"
 	"verifharness/c20"
+	"verifharness/cab"
 	"verifharness/cms"
 	"verifharness/e2e"
 	"verifharness/hx"
 	"verifharness/pe"
+	"verifharness/ps"
 )
 
 type genFunc func(w *bufio.Writer, seed uint64, tier string)
@@ -41,6 +43,8 @@ var handlers = map[string]func([]string) string{
 	"PE":  pe.Handle,
 	"E2E": e2e.Handle,
 	"CMS": cms.Handle,
+	"CAB": cab.Handle,
+	"PS":  ps.Handle,
 	"C09": c09.Handle,
 	"C19": c19.Handle,
 }
@@ -107,6 +111,10 @@ func init() {
 	gens["C05"] = []genFunc{forProp("C05", pe.Gen), filtered(c09.Gen, "cksum", "fixpe", "fixpehex", "merkle"), filtered(c19.Gen, "ecdsa", "ecdsasign")}
 	for _, p := range []string{"C01", "C02", "C03", "C08", "C11"} {
 		gens[p] = append(gens[p], forProp(p, pe.Gen))
+		if p != "C11" { // C11 has its own runner (crash isolation, workers); it sweeps cab/ps through the entry points
+			gens[p] = append(gens[p], forProp(p, cab.Gen))
+			gens[p] = append(gens[p], forProp(p, ps.Gen))
+		}
 		if p == "C02" {
 			gens[p] = append(gens[p], forProp(p, cms.Gen))
 		}
